@@ -41,6 +41,19 @@ def build_harness():
         raise ToolError("harness build failed:\n" + p.stdout[-4000:])
 
 
+REPO_TARGET = os.path.join(HARNESS, "target", "repo")
+ABASIC_BIN = os.path.join(REPO_TARGET, "debug", "abasic")
+LSP_BIN = os.path.join(REPO_TARGET, "debug", "abasic-lsp")
+
+
+def build_repo_binaries():
+    """Build the real `abasic` and `abasic-lsp` binaries from /repo's current working tree (own target dir)."""
+    p = subprocess.run(["cargo", "build", "--offline", "--quiet", "-p", "abasic-cli", "-p", "abasic-lsp", "--target-dir", REPO_TARGET],
+                       cwd=REPO, env=env(), stdout=subprocess.PIPE, stderr=subprocess.STDOUT, text=True)
+    if p.returncode != 0:
+        raise ToolError("building abasic / abasic-lsp failed:\n" + p.stdout[-4000:])
+
+
 def run_tlc(module, cfg_text, out_path, metadir, workers=12, timeout=3600, extra=(), java_opts=None):
     """Run TLC on spec/<module>.tla with the given cfg text. Returns the stats dict."""
     cfg_path = os.path.join(os.path.dirname(out_path), os.path.basename(out_path) + ".cfg")
